@@ -116,7 +116,8 @@ impl<'a> Cx<'a> {
                     return None;
                 }
                 let s = path_str(&p.path);
-                if let Some(c) = s.strip_prefix("F::").or(s.strip_prefix("Self::")) {
+                let self_is_float = self.self_kind.as_deref() == Some("Float");
+                if let Some(c) = s.strip_prefix("F::").or(if self_is_float { s.strip_prefix("Self::") } else { None }) {
                     return self.g.float_consts.get(c).map(|t| Ty::Int(*t));
                 }
                 if !s.ends_with("_value") {
@@ -316,8 +317,16 @@ impl<'a> Cx<'a> {
 
     // ------------------------------------------------------------------ expressions
 
+    /// an operand through which a `&mut` parameter may be read: receiver, `*p`, `p.f`, `p[i]`, argument
+    pub fn lower_recv(&mut self, e: &syn::Expr, expected: Option<&Ty>) -> R<Val> {
+        self.mutref_ok = true;
+        self.lower_expr(e, expected)
+    }
+
     pub fn lower_expr(&mut self, e: &syn::Expr, expected: Option<&Ty>) -> R<Val> {
         use syn::Expr as E;
+        // C-MUTREF: only the immediate operand inherits the permission
+        let mutref_ok = std::mem::replace(&mut self.mutref_ok, false);
         match e {
             E::Lit(l) => match &l.lit {
                 syn::Lit::Int(i) => {
@@ -328,6 +337,20 @@ impl<'a> Cx<'a> {
                         (None, None) => IntTy::I32,
                         (None, Some(t)) => return err(l.span(), format!("integer literal where {} is expected", t)),
                     };
+                    // C-LIT: rustc only lints a literal that does not fit its type (and wraps it)
+                    let fits = match i.base10_parse::<u128>() {
+                        Ok(v) => {
+                            if ty.signed() {
+                                v < (1u128 << (ty.bits() - 1))
+                            } else {
+                                ty.bits() == 128 || v < (1u128 << ty.bits())
+                            }
+                        }
+                        Err(_) => false,
+                    };
+                    if !fits {
+                        return err(l.span(), format!("the literal {} does not fit its type {}", digits, ty.name()));
+                    }
                     Ok(Val::new(digits, Ty::Int(ty)))
                 }
                 syn::Lit::Bool(b) => Ok(Val::new(if b.value { "true" } else { "false" }, Ty::Bool)),
@@ -339,20 +362,45 @@ impl<'a> Cx<'a> {
                 }
                 _ => err(l.span(), "unsupported literal"),
             },
-            E::Paren(p) => self.lower_expr(&p.expr, expected),
-            E::Group(p) => self.lower_expr(&p.expr, expected),
+            E::Paren(p) => {
+                self.mutref_ok = mutref_ok;
+                self.lower_expr(&p.expr, expected)
+            }
+            E::Group(p) => {
+                self.mutref_ok = mutref_ok;
+                self.lower_expr(&p.expr, expected)
+            }
             E::Reference(r) => {
                 if r.mutability.is_some() {
                     return err(e.span(), "`&mut` outside a call argument is unsupported");
                 }
+                self.mutref_ok = mutref_ok;
                 self.lower_expr(&r.expr, expected)
             }
-            E::Path(p) => self.lower_path(p, expected),
+            E::Path(p) => {
+                // C-MUTREF: a `&mut` parameter is its pointee everywhere in the translation, so it may
+                // only be used where Rust reads / writes through it, never copied, moved or rebound
+                if let Some(id) = p.path.get_ident() {
+                    if let Some((_, v)) = self.lookup(&id.to_string()) {
+                        if v.mutref && !mutref_ok && !matches!(v.ty, Ty::Fun(..)) {
+                            return err(p.span(), format!("the `&mut` parameter `{}` is used as a value (only `*p`, `p.field`, `p[i]`, method calls on it and passing it on are supported)", id));
+                        }
+                    }
+                }
+                self.lower_path(p, expected)
+            }
             E::Field(f) => self.lower_field(f),
             E::Cast(c) => self.lower_cast(c, expected),
             E::Unary(u) => self.lower_unary(u, expected),
             E::Binary(b) => self.lower_binary(b, expected),
             E::Assign(a) => {
+                if let syn::Expr::Path(lp) = strip_ref(&a.left) {
+                    if let Some(id) = lp.path.get_ident() {
+                        if matches!(self.lookup(&id.to_string()), Some((_, v)) if v.mutref) {
+                            return err(e.span(), format!("`{} = ..` rebinds the `&mut` parameter itself (only `*{} = ..` is supported)", id, id));
+                        }
+                    }
+                }
                 if let Some(x) = self.place_flex(&a.left) {
                     let rt = self.ty_of(&a.right);
                     self.fix_flex(&x, rt.as_ref());
@@ -434,6 +482,10 @@ impl<'a> Cx<'a> {
                 let mut ops = vec![];
                 for (x, ex) in t.elems.iter().zip(exp.iter()) {
                     let v = self.lower_expr(x, ex.as_ref())?;
+                    if v.ty == Ty::OptUpd {
+                        // C-OPTUPD: the update would be dropped, the effect kept
+                        return err(x.span(), "the `Option<()>` result of a function with `&mut` parameters inside a tuple (rule 15 needs `?` or `.unwrap()`)");
+                    }
                     ops.push((v.t.clone(), self.assign_log.len()));
                     ts.push(v.t);
                     tys.push(v.ty);
@@ -543,7 +595,10 @@ impl<'a> Cx<'a> {
             return err(p.span(), format!("unknown name `{}`", n));
         }
         let s = path_str(&p.path);
-        if let Some(c) = s.strip_prefix("F::").or(s.strip_prefix("Self::")) {
+        // `Self::C` is the Float constant only inside `trait Float` (an impl's own associated
+        // constant of that name would be found first)
+        let self_is_float = self.self_kind.as_deref() == Some("Float");
+        if let Some(c) = s.strip_prefix("F::").or(if self_is_float { s.strip_prefix("Self::") } else { None }) {
             if let Some(t) = self.g.float_consts.get(c) {
                 self.needs.f = true;
                 return Ok(Val::new(format!("({} f)", c), Ty::Int(*t)));
@@ -570,7 +625,7 @@ impl<'a> Cx<'a> {
     }
 
     fn lower_field(&mut self, f: &syn::ExprField) -> R<Val> {
-        let b = self.lower_expr(&f.base, None)?;
+        let b = self.lower_recv(&f.base, None)?;
         match &f.member {
             syn::Member::Named(id) => {
                 // single-field structs are their field (rule 14)
@@ -708,7 +763,7 @@ impl<'a> Cx<'a> {
                 if let Ok(Place::Alias(a)) = self.place_of(&syn::Expr::Unary(u.clone())) {
                     return self.alias_read(u.span(), &a);
                 }
-                self.lower_expr(&u.expr, expected)
+                self.lower_recv(&u.expr, expected)
             }
             syn::UnOp::Not(_) => {
                 let v = self.lower_expr(&u.expr, expected)?;
@@ -729,6 +784,10 @@ impl<'a> Cx<'a> {
                     };
                     if !ty.signed() {
                         return err(u.span(), "negative literal of unsigned type");
+                    }
+                    match i.base10_parse::<u128>() {
+                        Ok(v) if v <= (1u128 << (ty.bits() - 1)) => {}
+                        _ => return err(u.span(), format!("the literal -{} does not fit its type {}", digits, ty.name())),
                     }
                     return Ok(Val::new(format!("(-{})", digits), Ty::Int(ty)));
                 }
@@ -954,7 +1013,7 @@ impl<'a> Cx<'a> {
             } else {
                 // a by-value iterator parameter moves the iterator: `&mut it` would advance the
                 // caller's (C-REFMUT); `lower_expr` refuses `&mut e` here
-                let v = self.lower_expr(strip_ref(a), Some(pty))?;
+                let v = self.lower_recv(strip_ref(a), Some(pty))?;
                 let v = self.coerce(v, pty);
                 if v.ty != *pty {
                     return err(a.span(), format!("argument of type {} for a parameter of type {}", v.ty, pty));
@@ -1120,7 +1179,7 @@ impl<'a> Cx<'a> {
             // integer methods on an unsuffixed literal / `as _`: use the argument or expectation
             args.first().and_then(|a| self.ty_of(a)).or(expected.cloned())
         });
-        let recv = self.lower_expr(&m.receiver, rty.as_ref())?;
+        let recv = self.lower_recv(&m.receiver, rty.as_ref())?;
         let after_recv = self.assign_log.len();
         let recv_t = recv.t.clone();
         let arg1 = |cx: &mut Self, ty: &Ty| -> R<Val> {
@@ -1229,6 +1288,10 @@ impl<'a> Cx<'a> {
                     break;
                 }
             };
+            if let Err(e) = self.name_ok(sp, &id) {
+                result = Err(e);
+                break;
+            }
             let cn = self.new_cname(&id, self.scopes.len() - 1);
             self.scopes.last_mut().unwrap().insert(id.clone(), Var::plain(ty.clone(), *mutref, cn.clone()));
             if *mutref {
